@@ -488,7 +488,46 @@ func r1r2r3(c *core.Ctx, rre, big, ql *core.Fn) {
 			}
 		}
 	}
-	c.Expect("R3.policy", 9)
+	// the element route deletes an existing key under key_exists=rewrite before the
+	// FIRST piece of a value only: the parser hands a hash above 16 MiB over in
+	// several entries, and a DEL before a later piece removes what the earlier
+	// pieces wrote
+	if thr != nil {
+		fe := flow.New(c.Program)
+		first := flow.Holds(info, nil, "_x.NeedReadLen == 1", "_x.NeedReadLen != 0", "_x.NeedReadLen > 0", "_x.NeedReadLen >= 1")
+		later := flow.Holds(info, nil, "_x.NeedReadLen != 1", "_x.NeedReadLen == 0", "_x.NeedReadLen < 1", "_x.NeedReadLen <= 0")
+		nDel := 0
+		for _, p := range g.Points(func(n ast.Node) bool {
+			return n.Pos() >= thr.Body.Pos() && n.End() <= thr.Body.End() && doCmd(info, n, "del") != nil
+		}) {
+			nDel++
+			site := flow.Site{G: g, At: p}
+			switch {
+			case fe.Under(site, first):
+				c.Okf("R3.policy", "element/del-first-piece-only", p.Node().Pos(), "the DEL of the element route is sent for the first piece of a value only")
+			case fe.Under(site, later):
+				c.Failf("R3.policy", "element/del-first-piece-only", p.Node().Pos(), "the DEL of the element route is sent for a continuation piece: what the earlier pieces of a split hash wrote is removed")
+			default:
+				// no test of the piece marker on the way to the DEL
+				w := g.Path(cfgq.Query{From: g.Entry(), Target: func(n ast.Node) bool { return n == p.Node() }, AvoidEdge: func(b *cfg.Block, si int) bool {
+					for _, f := range g.EdgeFacts(b, si) {
+						if first(f) || later(f) {
+							return true
+						}
+					}
+					return false
+				}})
+				if w != nil {
+					c.Check("R3.policy", "element/del-first-piece-only", p.Node().Pos(), false,
+						"under key_exists=rewrite the element route deletes the target key before every piece of a value: the parser hands a hash above 16 MiB over in several entries (NeedReadLen == 1 marks the first), and the DEL before a later piece removes what the earlier pieces wrote", w...)
+				} else {
+					c.Undecidedf("R3.policy", "element/del-first-piece-only", p.Node().Pos(), "cannot tell under which piece marker the DEL of the element route is sent")
+				}
+			}
+		}
+		_ = nDel
+	}
+	c.Expect("R3.policy", 10)
 }
 
 func findIf(info *types.Info, root ast.Node, match func(cond ast.Expr) bool) *ast.IfStmt {
